@@ -130,6 +130,14 @@ func (v *FnVC) ghostAssign(lhs, rhs string, env *Env) {
 }
 
 func (v *FnVC) ghostAtStore(x *ssa.Store, p *Place) {
+	if p.Kind == "local" {
+		// `assert-at store-local NAME : e` holds before every assignment to the local variable NAME
+		// (new_value is the value being assigned)
+		if n := v.localNames[p.Key]; n != "" && !returnStore(x) {
+			v.runAnchored("store-local "+n, x.Pos(), map[string]Term{"new_value": v.val(x.Val)})
+		}
+		return
+	}
 	if p.Kind != "field" {
 		return
 	}
@@ -158,4 +166,36 @@ func (v *FnVC) unusedAnchored() []*Clause {
 		}
 	}
 	return out
+}
+
+// returnStore: the store is part of a return statement with named results (`return a, b` assigns the
+// results first): only stores, loads of the results and the deferred calls follow it up to the Return.
+func returnStore(x *ssa.Store) bool {
+	b := x.Block()
+	if len(b.Instrs) == 0 {
+		return false
+	}
+	if _, ok := b.Instrs[len(b.Instrs)-1].(*ssa.Return); !ok {
+		return false
+	}
+	seen := false
+	for _, ins := range b.Instrs {
+		if ins == ssa.Instruction(x) {
+			seen = true
+			continue
+		}
+		if !seen {
+			continue
+		}
+		switch y := ins.(type) {
+		case *ssa.Store, *ssa.RunDefers, *ssa.Return, *ssa.DebugRef:
+		case *ssa.UnOp:
+			if y.Op != token.MUL {
+				return false
+			}
+		default:
+			return false
+		}
+	}
+	return true
 }
